@@ -125,8 +125,10 @@ CLAIMED = {
                 'without well-formedness); bulk reads return every entry in order; the platforms mapping is leading words -> last token with the last row winning. '
                 'Necessity of each hypothesis proved by _refuted witnesses',
         "design_ref": 'DESIGN.md 5/C10',
-        "note": 'trusted: Coq kernel, Python line iteration and XML parsing, ASCII domain; model-code tie by generated correspondence (about 1.8k quick, 12k thorough '
-                'cases, model evaluated in Coq), sats_ok (5-character ids) discharged by computation for the active platforms file',
+        "note": 'trusted: Coq kernel, Python line iteration and XML parsing, ASCII domain; model-code tie by (a) translator/gen_collection.py (fail-closed AST '
+                "extraction): the per-line decision of _decode_lines is REGENERATED on every run and proved to be the model's classify/take_cond decision, and the "
+                "model's loop is proved to be the application of that regenerated decision at every line (C10_source_*); (b) generated correspondence (about 1.8k "
+                'quick, 12k thorough cases, model evaluated in Coq), sats_ok (5-character ids) discharged by computation for the active platforms file',
         "technique": 'hand-written Gallina model + structural induction; vm_compute correspondence + independent oracle',
     },
     "C11": {
